@@ -21,23 +21,21 @@ func init() {
 		Exhaustive: "scenario (a) library-initiated Close: all status codes 0..65535 plus -1, 65536, 1<<20 x both roles (thorough); boundary codes x reason lengths (quick)"})
 }
 
-const c06Codes = 65536 + 3
+// out-of-range values, among them some whose low 16 bits are a sendable code
+var c06OutOfRange = []int{-1, 65536, 1 << 20, 65536 + 1000, 65536 + 1001, -65536 + 1000, 2*65536 + 3000, 1<<20 + 4999, 1<<32 + 1000, -1 << 31, 65536 + 1005}
+
+const c06Codes = 65536 + 11
 
 func c06Code(idx int) int {
-	switch idx {
-	case 65536:
-		return -1
-	case 65537:
-		return 65536
-	case 65538:
-		return 1 << 20
+	if idx >= 65536 {
+		return c06OutOfRange[idx-65536]
 	}
 	return idx
 }
 
 var c06ReasonLens = []int{0, 1, 122, 123, 124, 130}
 var c06BoundaryCodes = []int{0, 1, 999, 1000, 1001, 1002, 1003, 1004, 1005, 1006, 1007, 1008, 1009, 1010, 1011, 1012, 1013, 1014, 1015, 1016,
-	1100, 2999, 3000, 3001, 3999, 4000, 4998, 4999, 5000, 5001, 32767, 32768, 65535, 65536, 65537, 65538}
+	1100, 2999, 3000, 3001, 3999, 4000, 4998, 4999, 5000, 5001, 32767, 32768, 65535, 65536, 65537, 65538, 65539, 65540, 65541, 65542, 65543, 65544, 65545, 65546}
 
 func enumC06(tier string) [][]uint32 {
 	var out [][]uint32
